@@ -410,7 +410,10 @@ func (p *{{$TypeName}}) {{.Writer}}(oprot thrift.TProtocol) (err error) {
 	{{- if Features.WithFieldMask}}
 	{{- if and .Requiredness.IsRequired (not Features.FieldMaskZeroRequired)}}
 	{{- if not $isBaseVal}}
-	fm, _ := p._fieldmask.Field({{.ID}})
+	fm, ex := p._fieldmask.Field({{.ID}})
+	if !ex {
+		fm = nil
+	}
 	{{- end}}
 	{{- else}}
 	if {{if $isBaseVal}}_{{else}}fm{{end}}, ex := p._fieldmask.Field({{.ID}}); ex { 
